@@ -90,11 +90,11 @@ def run(ctx):
     binary = vf.build_gotest(ctx, ".", ["common", "c03"])
     nrand = 1800 if quick else 40000
     env = {"VF_C03_SHARDS": 1, "VF_CASES": cpath, "VF_C03_N": nrand, "VF_C03_NCONN": 500 if quick else 6000,
-           "VF_C03_NSESS": 60 if quick else 800}
+           "VF_C03_NSESS": 60 if quick else 800, "VF_C03_NCONC": 120 if quick else 1500}
     sess_stats = {}
     if replay:
-        env.update(VF_C03_N=0, VF_C03_NCONN=0, VF_C03_NSESS=0)
-    for test in ("TestVfC03Replay", "TestVfC03Record", "TestVfC03Boundary", "TestVfC03ConnPath", "TestVfC03Session"):
+        env.update(VF_C03_N=0, VF_C03_NCONN=0, VF_C03_NSESS=0, VF_C03_NCONC=0)
+    for test in ("TestVfC03Replay", "TestVfC03Record", "TestVfC03Boundary", "TestVfC03ConnPath", "TestVfC03Session", "TestVfC03Concurrent"):
         rc, out = vf.run_gotest(ctx, binary, "^%s$" % test, env=env, timeout=900)
         if rc != 0 or "--- PASS" not in out:
             raise vf.Inconclusive("driver %s failed (rc=%s):\n%s" % (test, rc, out[-3000:]))
@@ -109,7 +109,7 @@ def run(ctx):
         m = re.search(r"VFC03 connpath=(\d+) skipped=(\d+)", out)
         if m and int(m.group(2)) * 10 > int(m.group(1)):
             raise vf.Inconclusive("the connection-level stub carried only %s requests (%s skipped)" % (m.group(1), m.group(2)))
-    recorded = sorted(os.path.join(ctx.tmp, f) for f in os.listdir(ctx.tmp) if re.match(r"c03_(gen|rand|big|conn|sess)_\d+\.ndjson$", f))
+    recorded = sorted(os.path.join(ctx.tmp, f) for f in os.listdir(ctx.tmp) if re.match(r"c03_(gen|rand|big|conn|sess|conc)_\d+\.ndjson$", f))
     vecs = {}
     for f in recorded:
         for v in vf.read_ndjson(f):
@@ -134,7 +134,7 @@ def run(ctx):
     if len(gen_vecs) != len(cases):
         raise vf.Inconclusive("harness built %d of %d generated cases" % (len(gen_vecs), len(cases)))
     ctx.log("harness: %d vectors recorded (%d generated, %d random, %d boundary summaries)" % (
-        len(vecs), len(gen_vecs), sum(1 for v in vecs.values() if v.get("src") in ("random", "conn", "boundary", "session")),
+        len(vecs), len(gen_vecs), sum(1 for v in vecs.values() if v.get("src") in ("random", "conn", "boundary", "session", "conc")),
         sum(1 for v in vecs.values() if "sum" in v)))
 
     # ---- 3. TLC decides every vector
@@ -246,6 +246,7 @@ def run(ctx):
         frames_sent=len(sent), verdict_classes=dict(tally),
         bytes_compared_with_reference_encoder=cmpn, bytes_identical=same,
         v5_execute_layouts=dict(layouts), session_level=sess_stats,
+        concurrent_compressed_vectors=sum(1 for v in vecs.values() if v.get("src") == "conc"),
         connection_sequence_vectors=sum(1 for v in vecs.values() if v.get("src") == "conn"),
         samples=[dict(kind=sample["kind"], v=sample["v"], stream=sample["stream"], values=sample["values"],
                       pagesize=sample["pagesize"], serial=sample["serial"], bytes=sample["bytes"],
